@@ -27,13 +27,13 @@ CONSTANTS
   OthersCall = "never"
   KeepPagesWritable = FALSE
   UserCalls = TRUE
-  MaxUserCalls = 1
+  MaxUserCalls = 2
   InstallKinds = {"jump"}
   Faults = {}
   SiteReuse = TRUE
-  MaxLives = 2
+  MaxLives = 1
   Gates = {"ok"}
-  MaxInstalls = 1
+  MaxInstalls = 2
 CONSTRAINT CanonDrop
 INVARIANT Emit
 CHECK_DEADLOCK FALSE
